@@ -62,6 +62,10 @@ fn main() {
         .map(|v| v as u64)
         .unwrap_or(1);
 
+    // development aid: VERIF_LOG=<filter> prints the node's own log to stdout
+    let _log_guard = std::env::var("VERIF_LOG")
+        .ok()
+        .map(|f| ckb_logger_service::init_for_test(&f));
     let spec = match vcheck::checks::find(&id) {
         Some(s) => s,
         None => {
@@ -355,7 +359,11 @@ fn run_parent(spec: &CheckSpec, tier: Tier, seed: u64) -> i32 {
     for l in &known_lines {
         println!("{l}");
     }
-    let _ = std::fs::remove_dir_all(&work);
+    if inconclusive.is_empty() && !timed_out && violations.is_empty() {
+        let _ = std::fs::remove_dir_all(&work);
+    } else {
+        eprintln!("worker logs kept in {}", work.display());
+    }
     if !violations.is_empty() {
         for (sig, detail, replay) in &violations {
             println!("  signature: {sig}");
